@@ -4,6 +4,8 @@ CONSTANTS
   Contents = {"shallow","nested","deeper","badscan","badrule","badvalue","usesT","typeT","orset","rich","typeU","blank","comment","typeC"}
   Ops = {"Check","Example","GetAST","Len","Used","OpenAPI"}
   Registers = TRUE
+  Sharing = FALSE
+  Plan = ""
   MaxCalls = 5
 INVARIANTS TypeOK Emit
 PROPERTIES FrozenRegsStable
